@@ -1,4 +1,5 @@
 import Obao.Proofs.PKIRevokeNum
+import Obao.Proofs.PKIRevokeConc
 /-! C16 — a revoked certificate is reported revoked everywhere until it expires.
 Model: `Obao/Model/PKIRevoke.lean` (requests as programs of storage writes; `Run.cut = some j` = a storage
 failure or crash after `j` writes; `Run.o1/o2` = the runtime's order of per-issuer CRL writes).  Histories are
@@ -294,6 +295,93 @@ example :
     ((s'.log.filter fun e => e.issuer == 1 && !e.delta).map fun e => (e.number, e.serials)) = [(7, [0]), (5, [0]), (3, [0]), (1, [])] ∧
     status s' 0 = .revoked 1 ∧ ocsp s' 0 = .revoked ∧ served s' 1 = some (7, [0]) ∧
     answer s' ⟨.revoke 0 true, [1, 2], [1, 2], none⟩ = .isIssuer := by decide
+
+/-! ### one revoke running concurrently with another request that rebuilds the CRLs
+
+Model `Obao/Model/PKIRevokeConc.lean`: two threads of micro-steps (writes, `revokeStorageLock`, the builder mutex,
+each build's listing of `revoked/`), every schedule.  The proof rests on two facts of the code: the builder mutex
+serialises whole rebuilds, and the revoke's OWN rebuild starts after its record write and is never skipped. -/
+
+/-- **concurrent revoke.**  `revoke k` against any one other request that rebuilds outside `revokeStorageLock`
+(issuer delete / generate / import, `config/crl`, tidy, rotate — leaving the certificate's issuer, the CRL switch and
+auto-rebuild = off alone), under EVERY schedule of their micro-steps and every order of CRL writes: once both have
+returned and the revoke answered success, the CRL served for the issuer lists the serial. -/
+theorem served_crl_lists_serial_concurrent (s : St) (k : Nat) (c : Cert) (byCert : Bool) (op1 : Op)
+    (p1 p2 q1 q2 : List Nat) (sched : List Bool) (t : Nat)
+    (hc : s.certs[k]? = some c) (hi : c.issuer ∈ s.issuers) (hdis : s.cfg.disable = false)
+    (hauto : s.cfg.autoRebuild = false) (hexp : s.now ≤ c.notAfter) (hq : c.issuer ∈ q1)
+    (hb : Benign ⟨k, c⟩ s op1)
+    (hfin : (crun false (cinit s op1 p1 p2 k byCert q1 q2) sched).finished = true)
+    (hans : (crun false (cinit s op1 p1 p2 k byCert q1 q2) sched).t2.res = some (.revoked t)) :
+    ∃ n ser, served (crun false (cinit s op1 p1 p2 k byCert q1 q2) sched).s c.issuer = some (n, ser) ∧ k ∈ ser := by
+  have hinv := cinv_run ⟨k, c⟩ sched _ (cinit_inv)
+  exact (hinv.pub ⟨⟨t, hans⟩, by
+    simp only [CSt.finished, Bool.and_eq_true, List.isEmpty_iff] at hfin
+    simp [hfin.2]⟩).2.1
+where
+  cinit_inv := cinv_init ⟨k, c⟩ s op1 p1 p2 byCert q1 q2 ⟨hc, hi, hdis, hauto, hexp⟩ hb hq
+
+/-- non-vacuity: issuer generation (thread `false`) lists `revoked/` before the revoke (thread `true`) writes its
+record; the revoke queues on the builder mutex, rebuilds after it, and CRL 5 lists the serial -/
+example :
+    let s := run init [⟨.addIssuer, [1], [1], none⟩, ⟨.issue 1 3600, [], [], none⟩]
+    let c := crun false (cinit s .addIssuer [1, 2] [1, 2] 0 false [1, 2] [1, 2])
+      ([false, false, false, false, true, true, true, true, true] ++ List.replicate 14 false ++ List.replicate 24 true)
+    c.finished = true ∧ c.t2.res = some (.revoked 1) ∧ served c.s 1 = some (5, [0]) := by decide
+
+/-- FULL statement for the VARIANT in which a queued `rebuild(sc, false)` is coalesced with a build that completed
+while it waited (`coalesce = true`; not the current code) -/
+def served_crl_lists_serial_concurrent_coalescing : Prop :=
+  ∀ (s : St) (k : Nat) (c : Cert) (byCert : Bool) (op1 : Op) (p1 p2 q1 q2 : List Nat) (sched : List Bool) (t : Nat),
+    s.certs[k]? = some c → c.issuer ∈ s.issuers → s.cfg.disable = false → s.cfg.autoRebuild = false →
+    s.now ≤ c.notAfter → c.issuer ∈ q1 → Benign ⟨k, c⟩ s op1 →
+    (crun true (cinit s op1 p1 p2 k byCert q1 q2) sched).finished = true →
+    (crun true (cinit s op1 p1 p2 k byCert q1 q2) sched).t2.res = some (.revoked t) →
+    ∃ n ser, served (crun true (cinit s op1 p1 p2 k byCert q1 q2) sched).s c.issuer = some (n, ser) ∧ k ∈ ser
+
+/-- why the revoke's own rebuild must never be skipped: with coalescing, the same schedule as above ends with the
+revoke answering success while the served CRL (number 3, written by the build that listed `revoked/` BEFORE the
+record write) does not list the serial -/
+theorem served_crl_lists_serial_concurrent_cex : ¬ served_crl_lists_serial_concurrent_coalescing := by
+  intro h
+  have := h (run init [⟨.addIssuer, [1], [1], none⟩, ⟨.issue 1 3600, [], [], none⟩]) 0 ⟨1, 3700⟩ false .addIssuer
+    [1, 2] [1, 2] [1, 2] [1, 2]
+    ([false, false, false, false, true, true, true, true, true] ++ List.replicate 14 false ++ List.replicate 8 true) 1
+    (by decide) (by decide) (by decide) (by decide) (by decide) (by decide) trivial (by decide) (by decide)
+  obtain ⟨n, ser, h1, h2⟩ := this
+  have h3 : served (crun true (cinit (run init [⟨.addIssuer, [1], [1], none⟩, ⟨.issue 1 3600, [], [], none⟩]) .addIssuer
+      [1, 2] [1, 2] 0 false [1, 2] [1, 2])
+      ([false, false, false, false, true, true, true, true, true] ++ List.replicate 14 false ++ List.replicate 8 true)).s 1
+      = some (3, []) := by decide
+  rw [h3] at h1
+  cases h1
+  cases h2
+
+/-- the sequential and the concurrent model describe the same revoke: its program is the head (record write) followed,
+when a rebuild is due, by the rebuild computed after the head -/
+theorem revokeProg_eq_head (s : St) (k : Nat) (byCert : Bool) (o1 o2 : List Nat) :
+    revokeProg s k byCert o1 o2 =
+      ((revokeHead s k byCert).1 ++
+        (if (revokeHead s k byCert).2.2 then rebuildSteps (applySteps s (revokeHead s k byCert).1) false o1 o2 else []),
+       (revokeHead s k byCert).2.1) := by
+  unfold revokeProg revokeHead
+  cases s.certs[k]? with
+  | none => simp
+  | some c =>
+    simp only
+    split
+    · simp
+    · split
+      · simp
+      · split
+        · simp
+        · cases s.revoked.lookup k with
+          | some t => cases s.cfg.autoRebuild <;> simp
+          | none =>
+            simp only
+            split
+            · simp
+            · cases s.cfg.autoRebuild <;> simp
 
 /-! ### CRL numbers -/
 
